@@ -481,6 +481,9 @@ def run(ctx):
     absorb(ctx, rep, "stress", devs)
     absorb_races(ctx, prefix, rep, "stress", exp, races, devs)
     ctx.extra["stress_pool"] = rep.get("extra", {})
+    # (3b) resolvers that wait for each other (no lock may be held across the call into application code)
+    rep = vlib.run_harness_json(ctx, "lazybind", ["rendezvous"], timeout=600, race=True)
+    absorb(ctx, rep, "rendezvous", devs)
     # (4) direction B: access logs judged by LazyBindTrace
     hooks = trace_validation(ctx, exp, vecs, devs, up)
     if not quick:
